@@ -186,7 +186,7 @@ def build_decider(prog, dcls, genotype_backed: bool, max_depth: int, call_model,
     return Obj(dcls.name, fields, dcls.fullname), ""
 
 
-def enumerate_creation(ctx, g: ModelGrammar, decider_cls: str, max_depth: int, cap: int = 4000):
+def enumerate_creation(ctx, g: ModelGrammar, decider_cls: str, max_depth: int, cap: int = 2500):
     """(programs: {text: value}, failures: [(script, exception name)], notes, runs) over all decision scripts"""
     prog = ctx.prog
     fn = prog.functions.get(RANDOM_NODE)
@@ -229,6 +229,9 @@ def enumerate_creation(ctx, g: ModelGrammar, decider_cls: str, max_depth: int, c
 
     def call_model(it, call, env, args, kwargs):
         nm = call_name(call)
+        if nm == "create_node" and sum(1 for f_ in it.fn_stack if f_.name == "create_node") > 3 * max_depth + 6:
+            # every production level needs at most three nested creations (refinement / union / abstract symbol / production)
+            it.throw("RecursionError: creation nests deeper than any program within the limit needs (the depth is not advancing)", call)
         recv = it.ev(call.func.value, env, 9) if isinstance(call.func, ast.Attribute) else None
         if nm == "get" and isinstance(recv, Obj) and recv.cls == "Genotype" and len(args) == 2:
             return Gene(pick)        # the gene at that position: any value (the genotype is extended on demand)
@@ -312,6 +315,9 @@ def enumerate_creation(ctx, g: ModelGrammar, decider_cls: str, max_depth: int, c
                 notes.append(f"script {script}: the result is not followed")
             else:
                 programs.setdefault(text_of(rv), rv)
+        if len(failures) >= 3 or any(f_[1].startswith("RecursionError") for f_ in failures) \
+                or sum(1 for v_ in programs.values() if depth_of(v_) > max_depth + 1) >= 3:
+            break        # enough definite evidence (failing scripts / programs far beyond the limit): the remaining scripts are not explored
         # next script in depth-first order
         sc, w = list(state["script"]), list(state["widths"])
         w = w[:len(sc)]
